@@ -207,15 +207,22 @@ Proof. exact (P.S3_no_wait_cycle cap cap_pos). Qed.
 Theorem S3_no_self_wait : forall s p m, reachable s -> wants s p = Some m -> ~ holds s p m.
 Proof. exact (P.S3_no_self_wait cap cap_pos). Qed.
 
-(* a goroutine parked on a send into c.out holds no mutex (fixed upstream: dispatch queues the
-   WINDOW_UPDATE frames of c.outBuf after dispatchLocked has released the Ctx.lck): in particular no
-   reachable state has the read loop parked on c.out while it holds a Ctx.lck *)
+(* the write loop, the only receiver of c.out, never sends on it (fixed upstream: on a failed body
+   read it writes the RST_STREAM itself, writeReset): none of its steps lengthens c.out *)
+Theorem S3_write_loop_never_sends_on_out : forall s a,
+  g_wl a -> guard a s -> outq (eff a s) <= outq s.
+Proof. exact (P.S3_write_loop_never_sends_on_out cap cap_pos). Qed.
+
+(* and whoever is parked on a send into c.out -- the read loop, X's timer -- holds no mutex (fixed
+   upstream: dispatch queues the WINDOW_UPDATE frames of c.outBuf after dispatchLocked has released
+   the Ctx.lck): no reachable state has the read loop parked on c.out while it holds a Ctx.lck *)
 Theorem S3_out_parks_hold_nothing : forall s p m,
   reachable s -> parked_on_out s p -> ~ holds s p m.
 Proof. exact (P.S3_out_parks_hold_nothing cap cap_pos). Qed.
 
-(* ---- (S3) C12, nothing stranded.  Runs strongly fair to every goroutine, to the done case of the
-   write loop's select and to the caller's body reader, in which at every instant the peer is
+(* ---- (S3) C12, nothing stranded.  Runs strongly fair to every goroutine, to the done case and
+   the c.out case of the write loop's select and to the caller's body reader, in which at every
+   instant the peer is
    reading or the connection is dead.  Once Close has been entered (Client.Close, or a loop that saw
    the connection die), both loops exit and X's caller receives from ctx.Err -- unless the write
    loop's own Close returned while c.done was still open (finding F4). ---- *)
@@ -233,6 +240,18 @@ Theorem S3_no_stranding :
   leadsto r (fun s => closed s = true)
     (fun s => loops_exited s /\ (delivered s \/ raced s = true)).
 Proof. exact (P.S3_no_stranding cap cap_pos r F R0 NS). Qed.
+
+(* the stronger trigger: nobody needs to call Close.  Once the peer is gone (reads and writes fail)
+   somebody notices -- the read loop gets out of whatever it is doing and fails its read, or the
+   write loop fails a write -- and enters Close; then as above. *)
+Theorem S3_gone_closes :
+  leadsto r (fun s => gone s = true) (fun s => closed s = true).
+Proof. exact (P.S3_gone_closes cap cap_pos r F R0 NS). Qed.
+
+Theorem S3_gone_no_stranding :
+  leadsto r (fun s => gone s = true)
+    (fun s => loops_exited s /\ (delivered s \/ raced s = true)).
+Proof. exact (P.S3_gone_no_stranding cap cap_pos r F R0 NS). Qed.
 End Runs.
 
 Example S3_example : exists s,
@@ -273,13 +292,6 @@ Theorem F4_stranded_by_close_race : exists s,
   (forall a, guard a s -> a = EPeerStall \/ a = ETick \/ a = EUserClose).
 Proof. exact (P.F4_stranded_by_close_race cap cap_pos). Qed.
 
-(* F6: the write loop parked on its own queue: c.out full, X's body reader fails, sendPending calls
-   cancelStream -> writeOut on the write loop, c.done open; X itself has been resolved *)
-Theorem F6_write_loop_parked_on_own_queue : exists s,
-  reachable s /\ P.only_env cap s /\
-  stalled s = false /\ gone s = false /\ done s = false /\
-  wl s = LSelfOut /\ rl s = RRead /\ outq s = cap /\ xc s = KRet.
-Proof. exact (P.F6_write_loop_parked_on_own_queue cap cap_pos). Qed.
 End Client.
 Print Assumptions S3_lock_order.
 Print Assumptions S3_ordered.
@@ -292,5 +304,7 @@ Print Assumptions F1_close_behind_stuck_write.
 Print Assumptions F1b_roundtrip_stuck_in_takeback.
 Print Assumptions F2_write_parked_past_timeout.
 Print Assumptions F4_stranded_by_close_race.
+Print Assumptions S3_write_loop_never_sends_on_out.
 Print Assumptions S3_out_parks_hold_nothing.
-Print Assumptions F6_write_loop_parked_on_own_queue.
+Print Assumptions S3_gone_closes.
+Print Assumptions S3_gone_no_stranding.
